@@ -107,6 +107,36 @@ SPECS["C17"] = {
     "assumptions": [],
 }
 
+SPECS["C13"] = {
+    "level": "model_checking",
+    "groups": [dict(LIBGO, entries=[
+        {"name": "VerifC13_DeadlineExists", "quick": {"params": [0], "bound": 62}, "thorough": {"params": [0], "bound": 62}},
+        {"name": "VerifC13_AdapterReturns", "native": False, "quick": {"params": [0, 1, 2, 3], "flags": ["-preempt", "2"]}, "thorough": {"params": [0, 1, 2, 3], "flags": ["-preempt", "3"]},
+         "expect_reach": ["end", "timed-out", "answered", "late-answer"]},
+        {"name": "VerifC13_NatsReturns", "native": False, "quick": {"params": [0, 1], "flags": ["-preempt", "2"]}, "thorough": {"params": [0, 1], "flags": ["-preempt", "3"]},
+         "expect_reach": ["end", "timed-out", "answered"]},
+    ])],
+    "level_text": "(a) For EVERY positive timeout below 2^62 ns (symbolic int64; the /1e6 and *1e6 kernel is decided by cvc5's integer encoding of bit-vectors because bit-blasting does not terminate) SetTimeout/Timeout yields a positive deadline within 1 ms (the wire granularity) of the requested one, so ToContext always installs a deadline. (b)/(c) Bounded symbolic execution with threads and a virtual clock of the real fAdapterTransport.Request/Oneway/send and fNatsTransport.Request: with a silent peer, a late answer (before or after the deadline), a write that blocks forever or a flush that blocks forever the call returns (a call that never returns is a deadlock of the harness), fails only with TIMED_OUT, succeeds only with the peer's answer, and leaves no registration behind; timeouts 0.5 ms, 1 ms, 2.5 ms. Outside: HTTP transport (net/http internals), wall-clock allowances (time is virtual: any delay is possible).",
+    "level_note": "Trusted: go/ssa, gose interpreter and scheduler model, z3, cvc5 1.0 (--solve-bv-as-int=sum) for the division kernel; time/context are engine models (a timer may fire at any scheduling point once it is the earliest pending one); nats.go is the contract model in harness/libgo/zz_verif_nats.go. " + SCHED_NOTE,
+    "bounds": {"quick": "timeouts: all 0<d<2^62 ns for (a); three values for (b)/(c); delay bound 2", "thorough": "delay bound 3"},
+    "assumptions": ["nats.go behaves as the contract model states"],
+}
+
+SPECS["C15"] = {
+    "level": "model_checking",
+    "groups": [dict(LIBGO, entries=[
+        {"name": "VerifC15_Lifecycle", "native": False, "quick": {"params": [0], "flags": ["-preempt", "1"]}, "thorough": {"params": [0, 1], "flags": ["-preempt", "1", "-par", "7"], "procs": 2},
+         "expect_reach": ["end", "second-generation", "eof-boundary", "eof-inside-frame", "read-error", "bad-frame", "user-close"]},
+        {"name": "VerifC15_Monitored", "native": False, "quick": {"params": [0, 1], "flags": ["-preempt", "1"]}, "thorough": {"params": [0, 1, 2], "flags": ["-preempt", "2"]},
+         "expect_reach": ["end", "second-failure-notified"]},
+        {"name": "VerifC15_ReopenPolicy", "quick": {"params": [0]}, "thorough": {"params": [0]}},
+    ])],
+    "level_text": "Bounded symbolic execution with threads of the real fAdapterTransport life-cycle (Open, readLoop, readFrame, TFramedTransport, close, Closed, IsOpen, SetMonitor, monitorRunner) over a harness byte stream: 2 (3) generations of open -> failure -> reopen where the failure is a clean EOF at a frame boundary, an EOF inside a frame (cut inside the size prefix, after it, inside the headers, one byte short; thorough: every offset), a read error, an unprocessable frame, or a user Close: every generation ends closed, publishes exactly one close cause (nil required for a user close, non-nil required for errors) and then closes the channel, reports ALREADY_OPEN / NOT_OPEN consistently, never deadlocks; with a monitor attached every unclean close is notified and followed by a reopen, repeatedly, and the final clean close is notified. Sequentially, BaseFTransportMonitor + monitorRunner.attemptReopen with symbolic MaxReopenAttempts (0..3), symbolic InitialWait <= MaxWait (any int64 below 2^55) and 0..4 failing Opens: attempts never exceed the maximum, no wait exceeds MaxWait, success iff an attempt within the budget succeeds. Outside: NATS/HTTP transports, write-side failures, real sockets.",
+    "level_note": "Trusted: go/ssa, gose interpreter and scheduler model, z3. time.Sleep is redirected to a logging stub in the policy harness. " + SCHED_NOTE,
+    "bounds": {"quick": "2 generations, 6 cut offsets, delay bound 1; monitor: 2-3 failures", "thorough": "3 generations, every cut offset; monitor: delay bound 2"},
+    "assumptions": [],
+}
+
 OVERLAYS = {}
 
 HOOK_COMMITS = []
